@@ -298,5 +298,5 @@ random_odd_boxed!(c12_random_odd_boxed_1, 1);
 random_odd_boxed!(c12_random_odd_boxed_64, 64);
 //@ name=c12_random_odd_boxed_65 prop=C12,C19,C11 tier=quick profile=k64 funcs="Odd<BoxedUint>::random,BoxedUint::random_bits" bound="bit_length=65, every RNG stream of 3 symbolic words then zeros" free_bits=192 stubs="RNG = bounded symbolic tape"
 random_odd_boxed!(c12_random_odd_boxed_65, 65);
-//@ name=c12_random_odd_boxed_0 prop=C12,C19,C11 tier=quick profile=k64 funcs="Odd<BoxedUint>::random,BoxedUint::random_bits" bound="bit_length=0: a valid odd value, never an out-of-bounds index" free_bits=192 stubs="RNG = bounded symbolic tape"
+//@ name=c12_random_odd_boxed_0 prop=C12,C19,C11 tier=quick profile=k64 funcs="Odd<BoxedUint>::random,BoxedUint::random_bits" bound="bit_length=0: a valid odd value, never an out-of-bounds index" free_bits=192 stubs="RNG = bounded symbolic tape" core=C11
 random_odd_boxed!(c12_random_odd_boxed_0, 0);
